@@ -6,64 +6,61 @@
     raw-array correspondence of tools/props/_c01_kernel.py, run on every check of C01, C02, C03:
     real LLVM kernel output = [G_out] on every swept case (explicit zeros and flags included).
 
-    Side conditions ([graph_okb], decidable, evaluated on every swept case): every leaf names a
-    well-formed stored input of the declared order and modes; output description consistent; no
-    index iterated twice on a path; a compressed layer of a tensor is iterated after its earlier
-    layers; output layers appended in order by the node iterating their index, or all remaining
-    layers dense (what the generator accepts).  Values are in the ring Z.
+    Side conditions ([graph_okb], decidable, evaluated on every swept case -- they hold for every
+    real graph): every leaf names a well-formed stored input ([wf_tensorb]) of the declared order
+    and modes, with distinct leaf ids; output description consistent; no index iterated twice on a
+    path; a compressed layer of a tensor is iterated after its earlier layers; output discipline
+    ([wellb], what the generator accepts): output layers appended in order by the node iterating
+    their index, or all remaining layers dense and filled through a bucket.  Values: the ring Z.
 
-    Theorems (all unbounded: any graph, any dimensions, any stored inputs):
-      C01G_G_computes_denotation_partial   on [in_fragment]: abs (G_out) = loop-nest denotation
-      C01G_G_computes_spec_partial         ... = Spec.spec when the C01 validator accepts the graph
-      C01G_G_output_wf                     G_out is a well-formed stored tensor (C02), every graph
+    Theorems (all unbounded: any graph, any dimensions, any stored inputs; all "Closed under the
+    global context"):
+      C01G_G_computes_denotation           abs (G_out) = loop-nest denotation of the graph
+      C01G_G_computes_spec                 ... = Spec.spec when the C01 validator accepts the graph
+      C01G_G_output_wf                     G_out is a well-formed stored tensor (C02)
       C01G_G_structure_value_independent   pos/crd of G_out depend only on the structure of the
-                                           inputs (C04: written flags are structural), every graph
-      C01G_G_no_phantoms_partial           on [in_fragment]: a prefix stored by a compressed level
-                                           of G_out has structural support in the graph (C03)
+                                           inputs (C04: written flags are structural); every graph,
+                                           no side condition
+      C01G_G_no_phantoms                   a prefix stored by a compressed level of G_out has
+                                           structural support in the graph (C03)
     Examples of the hypotheses: proofs/KernelExamples.v. *)
 From Coq Require Import ZArith List Bool String. Import ListNotations.
 From TV Require Import spec.Storage spec.Spec model.DesugarSem model.Exhaust model.DesugarSemGraph
   model.Kernel proofs.KernelEncode proofs.KernelSound proofs.KernelStruct proofs.KernelSupport
-  proofs.KernelTheorems.
+  proofs.KernelBucket proofs.KernelTheorems.
 Open Scope Z_scope.
 
 (** G computes the loop-nest denotation [gdenote] of the graph (DesugarSemGraph.v: an iteration
     node without output layer sums its body over its index, one with an output layer leaves the
-    index free, a sum node adds, a terminal evaluates its expression on the ABSTRACTION of the
-    stored inputs).  [tgt]: target index names in dimension order; [c]: any coordinate of the
-    output box.  PARTIAL: proved for graphs in [in_fragment] (the output layers 0,1,.. are appended
-    in order by the outermost nodes; below them contractions, sum nodes, terminals -- i.e. copies
-    and permutations, products, sums, contractions inside the output loops, sum nodes, for every
-    format of every operand, sparse or dense nodes, the whole co-iteration lattice).  Not covered:
-    graphs that fill dense output layers through a bucket because a contraction or a later
-    output layer is iterated OUTSIDE them (example: proofs/KernelExamples.v,
-    outside_fragment_instance); those are covered by the correspondence + the C01 sweep only. *)
-Theorem C01G_G_computes_denotation_partial : forall (cfg : kcfg) (g : graph Z) (tgt : list string),
+    index free, a sum node adds, a terminal evaluates its expression on the ABSTRACTION
+    [abs_tensor] of the stored inputs: 0 where nothing is stored).  [tgt]: target index names in
+    dimension order; [c]: any coordinate of the output box.  Covers every graph shape the
+    generator accepts: every format of every operand, sparse and dense nodes with the whole
+    co-iteration lattice (exhaust_tensor / extract_context), written flags, dense output layers
+    below compressed ones, contractions inside or outside the output loops (buckets), sum nodes,
+    scalar outputs, zero-sized dimensions. *)
+Theorem C01G_G_computes_denotation : forall (cfg : kcfg) (g : graph Z) (tgt : list string),
   k_leaves cfg = graph_leaves g ->
-  graph_okb cfg g tgt = true -> in_fragment cfg g = true ->
+  graph_okb cfg g tgt = true ->
   forall c, in_box cfg tgt c ->
     abs_tensor (O := ZOps) (G_out cfg g) c
     = gdenote (O := ZOps) (envE cfg) (k_sizes cfg) (ordsE cfg) g (bind tgt c).
-Proof. exact G_computes_denotation_partial. Qed.
-Print Assumptions C01G_G_computes_denotation_partial.
-
-(** the statement at full strength (every graph the generator accepts), kept as a Definition *)
-Definition C01G_G_computes_denotation_full : Prop := G_computes_denotation_full.
+Proof. exact G_computes_denotation. Qed.
+Print Assumptions C01G_G_computes_denotation.
 
 (** composed with the verified graph validator of C01 ([C01_graph_spec_validator_sound]): on an
     accepted graph G computes the SPECIFICATION of the assignment, in every format *)
-Theorem C01G_G_computes_spec_partial : forall (cfg : kcfg) (g : graph Z) (a : assignment Z),
+Theorem C01G_G_computes_spec : forall (cfg : kcfg) (g : graph Z) (a : assignment Z),
   k_leaves cfg = graph_leaves g ->
-  graph_okb cfg g (tgt_idx a) = true -> in_fragment cfg g = true ->
+  graph_okb cfg g (tgt_idx a) = true ->
   graph_ok_spec (ordsE cfg) Z.eqb a g = true ->
   forall c, in_box cfg (tgt_idx a) c ->
     abs_tensor (O := ZOps) (G_out cfg g) c = spec (O := ZOps) a (envE cfg) (k_sizes cfg) c.
-Proof. exact G_computes_spec_partial. Qed.
-Print Assumptions C01G_G_computes_spec_partial.
+Proof. exact G_computes_spec. Qed.
+Print Assumptions C01G_G_computes_spec.
 
 (** the output of G is a canonical stored tensor (C02's checker accepts it; with exactly one value
-    per leaf position: the scratch element of the real kernels is not part of the model) -- for
-    EVERY accepted graph, buckets included *)
+    per leaf position: the scratch element of the real kernels is not part of the model) *)
 Theorem C01G_G_output_wf : forall (cfg : kcfg) (g : graph Z) (tgt : list string),
   k_leaves cfg = graph_leaves g -> graph_okb cfg g tgt = true ->
   wf_tensorb true (G_out cfg g) = true /\ wf_tensorb false (G_out cfg g) = true.
@@ -77,7 +74,7 @@ Theorem C01G_G_structure_value_independent : forall (cfg : kcfg) (ins' : list (s
   dims (G_out cfg g) = dims (G_out (with_ins cfg ins') g)
   /\ ordering (G_out cfg g) = ordering (G_out (with_ins cfg ins') g)
   /\ levels (G_out cfg g) = levels (G_out (with_ins cfg ins') g).
-Proof. intros cfg ins' g H. exact (G_structure_same cfg ins' H g). Qed.
+Proof. exact G_structure_same. Qed.
 Print Assumptions C01G_G_structure_value_independent.
 
 (** no phantom coordinates (C03 for the model): every level-order prefix stored by a COMPRESSED
@@ -87,16 +84,14 @@ Print Assumptions C01G_G_structure_value_independent.
     can be located in its stored tensor, literals are everywhere present, product = and,
     sum / contraction / sum node = or / exists), is true.  [support_okb]: no index twice in a
     leaf, input dimensions are the sizes of their indexes, terminals sit below the loops of all
-    their indexes (decidable, evaluated on every swept case).  PARTIAL: on [in_fragment]. *)
-Theorem C01G_G_no_phantoms_partial : forall (cfg : kcfg) (g : graph Z) (tgt : list string),
+    their indexes (decidable, evaluated on every swept case). *)
+Theorem C01G_G_no_phantoms : forall (cfg : kcfg) (g : graph Z) (tgt : list string),
   k_leaves cfg = graph_leaves g ->
-  graph_okb cfg g tgt = true -> support_okb cfg g = true -> in_fragment cfg g = true ->
+  graph_okb cfg g tgt = true -> support_okb cfg g = true ->
   forall (l : nat) (p : list Z),
     nth_error (k_omodes cfg) l = Some MCompressed ->
     In p (stored_prefixes (G_out cfg g) (S l)) ->
     exists rest, Forall2 (fun c x => 0 <= c < k_sizes cfg x) (p ++ rest) (k_oidx cfg)
                  /\ gsupp cfg g (bind_from (fun _ => 0) (k_oidx cfg) (p ++ rest)) = true.
-Proof. exact G_no_phantoms_partial. Qed.
-Print Assumptions C01G_G_no_phantoms_partial.
-
-Definition C01G_G_no_phantoms_full : Prop := G_no_phantoms_full.
+Proof. exact G_no_phantoms. Qed.
+Print Assumptions C01G_G_no_phantoms.
